@@ -3,8 +3,8 @@
    Every op has a leading alias-mode token:
      0 all variables distinct        1 rop is the 1st input      2 rop is the 2nd input
      3 the two inputs are one variable (rop distinct)            4 all one variable
-   Inputs are built with exact-size blocks (tok_mpz); a distinct destination is mpz_init2 (r, 1), so the
-   call itself must size it.  Output: the result (`!malformed` if not well formed), then the values of
+   Inputs are built with exact-size blocks (tok_mpz); a distinct destination is mpz_init2 (r, 1) holding a stale
+   non-zero one-limb value, so the call itself must size it and store its size.  Output: the result (`!malformed` if not well formed), then the values of
    the input variables that are not the output (must be unchanged). */
 #include "harness.h"
 #define NEED(c) do { if (!(c)) return -1; } while (0)
@@ -16,6 +16,9 @@ static int same_val(const tok_t *x, const tok_t *y) {
   for (long i = 0; i < x->n; i++) if (x->d[i] != y->d[i]) return 0;
   return 1;
 }
+/* a distinct destination: minimal allocation AND a stale non-zero value (-0x5a5a5a5a5a5a5a5a), so that a path which forgets to
+   store SIZ (rop) — e.g. an early return for a zero operand (seed C03_d_1) — is visible; the result must not depend on it */
+static void dst_stale(mpz_ptr r) { mpz_init2(r, 1); r->_mp_d[0] = 0x5a5a5a5a5a5a5a5aUL; r->_mp_size = -1; }
 static long mode_of(const tok_t *t) { return (t->kind == T_NUM && !t->neg && t->n <= 1) ? (long)tok_ulong(t) : -1; }
 
 /* f (w, u, v) */
@@ -24,7 +27,7 @@ static int do_bin(f3_t f, int argc, tok_t *a, out_t *o) {
   NEED(argc == 3 && ISNUM(0) && ISNUM(1) && ISNUM(2));
   long m = mode_of(&a[0]); NEED(m >= 0 && m <= 4);
   if (m >= 3) NEED(same_val(&a[1], &a[2]));
-  mpz_t r, x, y; mpz_init2(r, 1); mpz_init(x); mpz_init(y);
+  mpz_t r, x, y; dst_stale(r); mpz_init(x); mpz_init(y);
   tok_mpz(x, &a[1]); tok_mpz(y, &a[2]);
   switch (m) {
     case 0: f(r, x, y); out_mpz(o, r); out_mpz(o, x); out_mpz(o, y); break;
@@ -63,7 +66,7 @@ typedef void (*f2_t)(mpz_ptr, mpz_srcptr);
 static int do_un(f2_t f, int argc, tok_t *a, out_t *o) {
   NEED(argc == 2 && ISNUM(0) && ISNUM(1));
   long m = mode_of(&a[0]); NEED(m == 0 || m == 1);
-  mpz_t r, x; mpz_init2(r, 1); mpz_init(x); tok_mpz(x, &a[1]);
+  mpz_t r, x; dst_stale(r); mpz_init(x); tok_mpz(x, &a[1]);
   if (m == 0) { f(r, x); out_mpz(o, r); out_mpz(o, x); }
   else { f(x, x); out_mpz(o, x); }
   mpz_clear(r); mpz_clear(x); return 0;
@@ -78,7 +81,7 @@ static int do_ui(fui_t f, int argc, tok_t *a, out_t *o) {
   NEED(argc == 3 && ISNUM(0) && ISNUM(1) && ISUI(2));
   long m = mode_of(&a[0]); NEED(m == 0 || m == 1);
   mpir_ui v = tok_ulong(&a[2]);
-  mpz_t r, x; mpz_init2(r, 1); mpz_init(x); tok_mpz(x, &a[1]);
+  mpz_t r, x; dst_stale(r); mpz_init(x); tok_mpz(x, &a[1]);
   if (m == 0) { f(r, x, v); out_mpz(o, r); out_mpz(o, x); }
   else { f(x, x, v); out_mpz(o, x); }
   mpz_clear(r); mpz_clear(x); return 0;
@@ -96,7 +99,7 @@ static int op_ui_sub(int argc, tok_t *a, out_t *o) {
   NEED(argc == 3 && ISNUM(0) && ISUI(1) && ISNUM(2));
   long m = mode_of(&a[0]); NEED(m == 0 || m == 1);
   mpir_ui u = tok_ulong(&a[1]);
-  mpz_t r, x; mpz_init2(r, 1); mpz_init(x); tok_mpz(x, &a[2]);
+  mpz_t r, x; dst_stale(r); mpz_init(x); tok_mpz(x, &a[2]);
   if (m == 0) { mpz_ui_sub(r, u, x); out_mpz(o, r); out_mpz(o, x); }
   else { mpz_ui_sub(x, u, x); out_mpz(o, x); }
   mpz_clear(r); mpz_clear(x); return 0;
@@ -109,7 +112,7 @@ static int op_mul_si(int argc, tok_t *a, out_t *o) {
   mp_limb_t mag = tok_ulong(&a[2]);
   NEED(a[2].neg ? mag <= ((mp_limb_t)1 << 63) : mag < ((mp_limb_t)1 << 63));
   mpir_si s = a[2].neg ? (mpir_si)(0 - mag) : (mpir_si)mag;
-  mpz_t r, x; mpz_init2(r, 1); mpz_init(x); tok_mpz(x, &a[1]);
+  mpz_t r, x; dst_stale(r); mpz_init(x); tok_mpz(x, &a[1]);
   if (m == 0) { mpz_mul_si(r, x, s); out_mpz(o, r); out_mpz(o, x); }
   else { mpz_mul_si(x, x, s); out_mpz(o, x); }
   mpz_clear(r); mpz_clear(x); return 0;
